@@ -140,6 +140,11 @@ impl<S: Stream + Unpin> Stream for MergeUnbounded<S> {
                 }
             }
         }
+        // streams can end without yielding an item, so every group may have run dry
+        // during this pass: with no source left the merged stream has ended
+        if groups.iter().all(|g| g.streams.is_empty()) {
+            return Poll::Ready(None);
+        }
         Poll::Pending
     }
 }
